@@ -92,6 +92,7 @@ func vfParse(h *table.SDTHeader) {
 var vfPrint bool
 
 // Every payload of N bytes.
+//
 //verif:split 6
 //verif:budget-is-violation
 //verif:depth 120
@@ -104,6 +105,7 @@ func Verif_C12_parse_bytes() {
 }
 
 // Device declared with a dual-name path: 5b 82 <pkglen> 2e <8 name bytes>.
+//
 //verif:budget-is-violation
 //verif:depth 120
 func Verif_C12_tmpl_device_path() {
@@ -118,6 +120,7 @@ func Verif_C12_tmpl_device_path() {
 }
 
 // Field with a Connection whose buffer length prefix is arbitrary: 5b 81 0c NAME flags 02 11 <pkglen> 0a <len> 00.
+//
 //verif:budget-is-violation
 //verif:depth 120
 func Verif_C12_tmpl_connection_buffer() {
@@ -132,6 +135,7 @@ func Verif_C12_tmpl_connection_buffer() {
 // combination of (possibly inconsistent) package-length bytes from a menu: 08 BUF0 11 <L1> 11 <L2> 01 00 00 00 00 00 00.
 // The lengths are enumerated (Choice) rather than symbolic: a symbolic package end makes every later stream
 // offset symbolic, which the memory model pays for with one case split per access.
+//
 //verif:budget-is-violation
 //verif:depth 120
 func Verif_C12_tmpl_nested_buffer() {
@@ -151,6 +155,7 @@ func Verif_C12_tmpl_nested_buffer() {
 
 // A named object declared through a two-segment absolute path followed by a Scope directive, all eight name
 // bytes arbitrary (so either may or may not resolve): 08 5c 2e <SEG0> FOO0 00 | 10 05 <TGT0>.
+//
 //verif:budget-is-violation
 //verif:depth 120
 func Verif_C12_tmpl_scope_resolution() {
@@ -167,6 +172,7 @@ func Verif_C12_tmpl_scope_resolution() {
 
 // Scope(\_SB_){ <1..2 arbitrary bytes> }: an arbitrary (mostly truncated) statement inside a predefined scope,
 // where operand collection could reach past the scope into the root's other children: 10 <7|8> 5c _SB_ <b0> [<b1>].
+//
 //verif:split 4
 //verif:budget-is-violation
 //verif:depth 120
@@ -179,6 +185,7 @@ func Verif_C12_tmpl_scope_body() {
 }
 
 // Method whose PkgLength cuts its name short: 14 03 <2 arbitrary bytes> (rejected, leaves a half-built Method behind).
+//
 //verif:budget-is-violation
 //verif:depth 120
 func Verif_C12_tmpl_method_truncated() {
